@@ -367,6 +367,7 @@ func mayAuth(c *Conn) bool {
 //@   callsite Conn.readCommand requires c.state != imap.ConnStateLogout
 //@   callsite Conn.readCommand(cc *Conn, dec *imapwire.Decoder) requires dec != nil && dec.CheckBufferedLiteralFunc != nil
 //@   callsite Session.Close requires !__called("Session.Close")
+//@   callsite Conn.writeCapabilityStatus(cc *Conn, tag string, typ imap.StatusResponseType, text string) requires (typ == imap.StatusResponseTypePreAuth && c.state == imap.ConnStateAuthenticated) || (typ == imap.StatusResponseTypeOK && c.state == imap.ConnStateNotAuthenticated)
 //@   ensures[C06] __called("NewSession") && !__failed("NewSession") && c.session != nil ==> __called("Session.Close")
 
 //@ func (c *Conn) checkState(state imap.ConnState) (err error)
